@@ -4,6 +4,7 @@
      run{pol,script,nhosts,g,t}   route policy, script, hosts of the cluster, configured global / per-try timeout (ms)
      tmo{g,t}                     effective timeouts the proxy computed (hook ds.timeout)
      att{host,res,at}             an upstream attempt handed to the pool of `host` (hook us.attempt), ms since the run began
+     rcv{path,hdr,orig}           what the host of that attempt received (scripted host log)
      out{o,at}                    how that attempt ended, as observed (scripted upstream + us.recv / us.reset reason)
      reply{code}                  the reply to the client starts (hook ds.reply)
      fin{kind,status,elapsed}     what the client saw
@@ -11,11 +12,19 @@
    503 into a per-try timeout: then the per-try timeout row applies). *)
 EXTENDS RouteActionRetry, VTrace
 
-VARIABLES nh, cg, ct, attAt, firstAt
-tvars == <<vars, nh, cg, ct, attAt, firstAt, l>>
+VARIABLES nh, cg, ct, attAt, firstAt,
+          act      \* the route's request / response actions of the run and the original request (RouteAction.tla shapes)
+tvars == <<vars, nh, cg, ct, attAt, firstAt, act, l>>
+
+(* the meaning of the actions is RouteAction's *)
+RA == INSTANCE RouteAction WITH Family <- "none", Defects <- {}, Big <- TRUE, c <- act
+NoAct == [lv |-> [route |-> RA!NoLevel, vhost |-> RA!NoLevel, router |-> RA!NoLevel], hin |-> [k \in RA!Names |-> RA!Absent],
+          rlv |-> [route |-> RA!NoLevel, vhost |-> RA!NoLevel, router |-> RA!NoLevel], rhin |-> [k \in RA!Names |-> RA!Absent],
+          pr |-> <<>>, rr |-> "none", path |-> <<>>]
+SameHdr(got, want) == \A k \in RA!Names : got[k] = want[k]
 
 TraceInit == /\ l = 1 /\ pol = [on |-> FALSE, n |-> 0, codes |-> <<>>] /\ script = <<>> /\ att = 0 /\ rem = 0 /\ st = "none"
-             /\ last = "none" /\ hosts = <<>> /\ reply = 0 /\ nh = 0 /\ cg = 0 /\ ct = 0 /\ attAt = 0 /\ firstAt = 0
+             /\ last = "none" /\ hosts = <<>> /\ reply = 0 /\ nh = 0 /\ cg = 0 /\ ct = 0 /\ attAt = 0 /\ firstAt = 0 /\ applied = 0 /\ act = NoAct
 
 (* "rclose": an HTTP/1 host closed the connection in an orderly way before answering (reset reason UpstreamReset).
    The statement's "termination" is bound to the abnormal termination (reason ConnectionTermination); for the orderly
@@ -26,12 +35,12 @@ Must(p, o) == o # "rclose" /\ Retryable(p, o)
 
 TRun == /\ IsEvent("run")
         /\ pol' = Ev.pol /\ script' = Ev.script /\ nh' = Ev.nhosts /\ cg' = Ev.g /\ ct' = Ev.t
-        /\ att' = 0 /\ rem' = 0 /\ st' = "run" /\ last' = "none" /\ hosts' = <<>> /\ reply' = 0 /\ attAt' = 0 /\ firstAt' = 0
+        /\ att' = 0 /\ rem' = 0 /\ st' = "run" /\ last' = "none" /\ hosts' = <<>> /\ reply' = 0 /\ attAt' = 0 /\ firstAt' = 0 /\ applied' = 0 /\ act' = Ev.act
 
 TTmo == /\ IsEvent("tmo")
         /\ Expect(Ev.g = cg, "effective-global-timeout")
         /\ Expect(Ev.t = (IF ct >= cg THEN 0 ELSE ct), "effective-per-try-timeout")
-        /\ UNCHANGED <<vars, nh, cg, ct, attAt, firstAt>>
+        /\ UNCHANGED <<vars, nh, cg, ct, attAt, firstAt, act>>
 
 TAtt == /\ IsEvent("att")
         /\ Expect(reply = 0, "attempt-after-reply-started")
@@ -40,17 +49,30 @@ TAtt == /\ IsEvent("att")
         /\ Expect(att = 0 \/ nh < 2 \/ Ev.host # hosts[Len(hosts)], "retry-on-same-host")
         /\ att' = att + 1 /\ hosts' = Append(hosts, Ev.host) /\ last' = "pending" /\ attAt' = Ev.at
         /\ firstAt' = IF att = 0 THEN Ev.at ELSE firstAt
-        /\ UNCHANGED <<pol, script, rem, st, reply, nh, cg, ct>>
+        /\ UNCHANGED <<pol, script, rem, st, reply, nh, cg, ct, applied, act>>
+
+(* what the host of the current attempt received: EVERY attempt, first or retried, whichever host, carries exactly
+   Sem(actions, original request): the actions are applied once, relative to the original request *)
+Which == IF att <= 1 THEN "attempt-1:" ELSE "retried-attempt:"
+TRcv == /\ IsEvent("rcv")
+        /\ LET wantH  == RA!SemHdr(act.lv, act.hin)
+               againH == RA!SemHdr(act.lv, wantH)
+               wantP  == RA!SemRewrite(1, act.pr, act.rr, act.path)
+               againP == RA!SemRewrite(1, act.pr, act.rr, wantP)
+           IN /\ Expect(SameHdr(Ev.hdr, wantH), Which \o (IF SameHdr(Ev.hdr, againH) THEN "request-headers-applied-again" ELSE "request-headers"))
+              /\ Expect(Ev.path = wantP, Which \o (IF Ev.path = againP THEN "path-rewritten-again" ELSE "path-rewrite"))
+              /\ Expect(Ev.orig = (IF wantP # act.path THEN act.path ELSE <<>>), Which \o "original-path-header")
+        /\ UNCHANGED <<vars, nh, cg, ct, attAt, firstAt, act>>
 
 TOut == /\ IsEvent("out")
         /\ Expect(Ev.o # "ptmo" \/ (ct > 0 /\ Ev.at - attAt >= ct - 2), "per-try-timeout-fired-early")
         /\ Expect(Ev.o # "gtmo" \/ Ev.at - firstAt >= cg - 2, "global-timeout-fired-early")
         /\ last' = Ev.o
-        /\ UNCHANGED <<pol, script, att, rem, st, hosts, reply, nh, cg, ct, attAt, firstAt>>
+        /\ UNCHANGED <<pol, script, att, rem, st, hosts, reply, nh, cg, ct, attAt, firstAt, applied, act>>
 
 TReply == /\ IsEvent("reply")
           /\ reply' = IF Ev.code = 0 THEN 1 ELSE Ev.code
-          /\ UNCHANGED <<pol, script, att, rem, st, last, hosts, nh, cg, ct, attAt, firstAt>>
+          /\ UNCHANGED <<pol, script, att, rem, st, last, hosts, nh, cg, ct, attAt, firstAt, applied, act>>
 
 (* a retry that the table asks for may be pre-empted only by the global timeout (runs with a short one) *)
 RetryDue == att >= 1 /\ att < 1 + Budget(pol) /\ Known(last) /\ Must(pol, last)
@@ -61,9 +83,12 @@ TFin == /\ IsEvent("fin")
         /\ Expect(~RetryDue \/ (cg < 5000 /\ Ev.kind = "response" /\ Ev.status = 504), "retry-not-made:" \o last)
         /\ Expect(Ev.kind # "response" \/ last \notin Responses \/ Ev.status = Code(last), "reply-is-not-the-last-response")
         /\ Expect(Ev.kind # "response" \/ ~Known(last) \/ last \in Responses \/ Ev.status >= 500, "failure-not-reported")
+        (* the single reply: the last attempt's response with the response-side actions applied once *)
+        /\ Expect(Ev.kind # "response" \/ last \notin Responses \/ Ev.status # Code(last)
+                  \/ SameHdr(Ev.down, RA!SemHdr(act.rlv, act.rhin)), "reply:response-headers")
         /\ st' = "fin"
-        /\ UNCHANGED <<pol, script, att, rem, last, hosts, reply, nh, cg, ct, attAt, firstAt>>
+        /\ UNCHANGED <<pol, script, att, rem, last, hosts, reply, nh, cg, ct, attAt, firstAt, applied, act>>
 
-TraceNext == TRun \/ TTmo \/ TAtt \/ TOut \/ TReply \/ TFin
+TraceNext == TRun \/ TTmo \/ TAtt \/ TRcv \/ TOut \/ TReply \/ TFin
 TraceSpec == TraceInit /\ [][TraceNext]_tvars
 ====
